@@ -1,7 +1,10 @@
 #![allow(dead_code)]
 //! verif-harness: runs the real aiken/uplc code next to the Lean models.
 //!   verif-harness <sub-command> [--seed N] [--tier quick|thorough] [--out file] [--replay file]
+mod c08;
 mod c15;
+mod c20;
+mod flatgen;
 mod driver;
 mod prng;
 mod report;
@@ -20,6 +23,9 @@ fn main() {
         std::process::exit(2);
     }
     let sub = args[1].clone();
+    if sub == "c20-flat-deep" {
+        c20::deep_child(args[2].parse().expect("depth"), &args[3]);
+    }
     let mut ctx = Ctx { seed: 1, thorough: false, replay: None };
     let mut out: Option<String> = None;
     let mut i = 2;
@@ -41,6 +47,10 @@ fn main() {
                 ctx.replay = Some(args[i + 1].clone());
                 i += 1;
             }
+            other if other.starts_with("--") && i + 1 < args.len() => {
+                // extra arguments belong to the sub-command (parsed there from std::env::args)
+                i += 1;
+            }
             other => panic!("unknown argument {other}"),
         }
         i += 1;
@@ -49,6 +59,8 @@ fn main() {
     std::panic::set_hook(Box::new(|_| {}));
     let rep = match sub.as_str() {
         "c15-names" => c15::names(&ctx),
+        "c08-flat" => c08::run(&ctx),
+        "c20-flat" => c20::run(&ctx),
         other => {
             eprintln!("unknown sub-command {other}");
             std::process::exit(2);
